@@ -53,7 +53,10 @@ def gen_cases(rng, tier):
                 extra = "Contact: <sip:peer@10.9.9.9>\r\n"
             else:
                 rp = "" if refresher == "unspec" else ";refresher=" + refresher
-                extra = "Supported: timer\r\nSession-Expires: %d%s\r\nContact: <sip:peer@10.9.9.9>\r\n" % (d, rp)
+                # how the answer announces the extension: Supported: timer, Require: timer only (RFC 4028 sec. 9 asks for no more),
+                # Supported listing other extensions, nothing at all - the negotiated Session-Expires counts in every case
+                ann = ["Supported: timer\r\n", "Require: timer\r\n", "Supported: 100rel, replaces\r\nRequire: timer\r\n", "", "Supported: 100rel\r\nSupported: timer\r\n"][n % 5]
+                extra = ann + "Session-Expires: %d%s\r\nContact: <sip:peer@10.9.9.9>\r\n" % (d, rp)
             horizon = min(3 * (d + 20), 400000) * 1000 + 1000
             if refresher in ("uac", "unspec") and d <= 10:
                 horizon = 1000      # zero-length timer: only the first (immediate) refresh is compared
